@@ -464,6 +464,182 @@ func c13Observe(res *Result, ts []ioMember, vals []memberVal, wires []int, varia
 	return events
 }
 
+// c13GoSizes: circuit.Sizes, the Go-value form of the size inference used to instantiate an unsized main argument.
+// IOEnc.tla SizesSuffice: a number written into an argument of the inferred size reads back as itself, and the
+// Go-value form and the textual form (InputSizes) of a non-negative number are sized alike.
+func c13GoSizes(out *ndWriter, base int) {
+	idx := base
+	emit := func(class string, f func(res *Result)) {
+		res := &Result{Case: idx, Class: class, Nontrivial: true}
+		idx++
+		func() {
+			defer func() {
+				if x := recover(); x != nil {
+					res.viol("panic:Sizes", "%v", x)
+				}
+			}()
+			f(res)
+		}()
+		out.put(res)
+	}
+	uvals := []uint64{0, 1, 2, 3, 4, 5, 7, 8, 15, 16, 127, 128, 255, 256, 1000, 32767, 32768, 65535, 65536, 1 << 31, 1<<32 - 1, 1 << 32, 1<<63 - 1, 1 << 63, 1<<64 - 1}
+	needed := func(v uint64) int {
+		n := 1
+		for v>>uint(n) != 0 && n < 64 {
+			n++
+		}
+		return n
+	}
+	mk := func(kind string, v uint64) (interface{}, bool) {
+		switch kind {
+		case "uint8":
+			return uint8(v), v <= 0xff
+		case "uint16":
+			return uint16(v), v <= 0xffff
+		case "uint32":
+			return uint32(v), v <= 0xffffffff
+		case "uint64":
+			return v, true
+		case "int8":
+			return int8(v), v <= 0x7f
+		case "int16":
+			return int16(v), v <= 0x7fff
+		case "int32":
+			return int32(v), v <= 0x7fffffff
+		case "int64":
+			return int64(v), v <= 1<<63-1
+		}
+		return nil, false
+	}
+	for _, kind := range []string{"uint8", "uint16", "uint32", "uint64", "int8", "int16", "int32", "int64"} {
+		kind := kind
+		emit("go-sizes:"+kind, func(res *Result) {
+			for _, v := range uvals {
+				gv, ok := mk(kind, v)
+				if !ok {
+					continue
+				}
+				sizes, err := circuit.Sizes([]interface{}{gv})
+				if err != nil || len(sizes) != 1 {
+					res.viol("go-sizes-error:"+kind, "Sizes(%T(%v)) = %v, %v", gv, gv, sizes, err)
+					continue
+				}
+				if sizes[0] < needed(v) {
+					res.viol("go-sizes:too-small:"+kind, "Sizes(%T(%d)) = %d bits, the value needs %d", gv, v, sizes[0], needed(v))
+					continue
+				}
+				tsz, err := circuit.InputSizes([]string{fmt.Sprint(v)})
+				if err == nil && len(tsz) == 1 && tsz[0] != sizes[0] {
+					res.viol("go-sizes:differs-from-text:"+kind, "Sizes(%T(%d)) = %d bits, InputSizes(%q) = %d bits", gv, v, sizes[0], fmt.Sprint(v), tsz[0])
+				}
+				// instantiate an unsized argument with the inferred size and write the value
+				tn := "uint"
+				if kind[0] == 'i' {
+					tn = "int"
+				}
+				info, err := types.Parse(tn)
+				if err != nil {
+					res.drift("types.Parse(%q): %v", tn, err)
+					return
+				}
+				if err := info.InstantiateWithSizes(sizes); err != nil {
+					res.viol("go-sizes-error:"+kind, "InstantiateWithSizes(%v) of %s fails: %v", sizes, tn, err)
+					continue
+				}
+				got, err := circuit.IOArg{Name: "a", Type: info}.Set(nil, []interface{}{gv})
+				if err != nil {
+					res.viol("go-sizes-error:"+kind, "Set(%T(%v)) into %v fails: %v", gv, gv, info, err)
+					continue
+				}
+				mask := new(big.Int).Sub(new(big.Int).Lsh(big.NewInt(1), uint(info.Bits)), big.NewInt(1))
+				back := new(big.Int).And(got, mask)
+				if back.Cmp(new(big.Int).SetUint64(v)) != 0 {
+					res.viol("go-sizes:readback:"+kind, "%T(%d) is sized %d bits and its wires read back as %v", gv, v, sizes[0], back)
+				}
+			}
+		})
+	}
+	// negative values: the inferred size holds the two's complement
+	emit("go-sizes:negative", func(res *Result) {
+		for _, gv := range []interface{}{int8(-1), int8(-3), int8(-128), int16(-2), int16(-32768), int32(-5), int32(-1 << 31), int64(-1), int64(-1 << 63), int64(-300)} {
+			sizes, err := circuit.Sizes([]interface{}{gv})
+			if err != nil || len(sizes) != 1 {
+				res.viol("go-sizes-error:neg", "Sizes(%T(%v)) = %v, %v", gv, gv, sizes, err)
+				continue
+			}
+			info, _ := types.Parse("int")
+			if err := info.InstantiateWithSizes(sizes); err != nil {
+				res.viol("go-sizes-error:neg", "InstantiateWithSizes(%v) fails: %v", sizes, err)
+				continue
+			}
+			got, err := circuit.IOArg{Name: "a", Type: info}.Set(nil, []interface{}{gv})
+			if err != nil {
+				res.viol("go-sizes-error:neg", "Set(%T(%v)) fails: %v", gv, gv, err)
+				continue
+			}
+			back := typedOf("i", intToBits(got, int(info.Bits)))
+			want := big.NewInt(reflect.ValueOf(gv).Int())
+			if back.Cmp(want) != 0 {
+				res.viol("go-sizes:readback:negative", "%T(%v) is sized %d bits and its wires read back as %v", gv, gv, sizes[0], back)
+			}
+		}
+	})
+	// mpc.Results: the plural form decodes every output like Result; without output descriptions the raw numbers come back
+	emit("results", func(res *Result) {
+		u := func(bits int) circuit.IOArg {
+			return circuit.IOArg{Name: "o", Type: types.Info{Type: types.TUint, IsConcrete: true, Bits: types.Size(bits)}}
+		}
+		i := func(bits int) circuit.IOArg {
+			return circuit.IOArg{Name: "o", Type: types.Info{Type: types.TInt, IsConcrete: true, Bits: types.Size(bits)}}
+		}
+		el := types.Info{Type: types.TUint, IsConcrete: true, Bits: 72}
+		arr := circuit.IOArg{Name: "a", Type: types.Info{Type: types.TArray, IsConcrete: true, Bits: 216, ArraySize: 3, ElementType: &el}}
+		outs := circuit.IO{u(8), i(5), u(70), i(64), circuit.IOArg{Name: "b", Type: types.Info{Type: types.TBool, IsConcrete: true, Bits: 1}}, arr}
+		big72 := func(k int64) *big.Int { return new(big.Int).Add(new(big.Int).Lsh(big.NewInt(k), 64), big.NewInt(k+7)) }
+		packed := new(big.Int).Or(new(big.Int).Or(big72(1), new(big.Int).Lsh(big72(2), 72)), new(big.Int).Lsh(big72(3), 144))
+		vals := []*big.Int{big.NewInt(200), big.NewInt(31), new(big.Int).Lsh(big.NewInt(1), 69), new(big.Int).SetUint64(1 << 63), big.NewInt(1), packed}
+		keep := make([]*big.Int, len(vals))
+		for k, v := range vals {
+			keep[k] = new(big.Int).Set(v)
+		}
+		rs := mpc.Results(vals, outs)
+		for k := range vals {
+			if vals[k].Cmp(keep[k]) != 0 {
+				res.viol("results-mutates", "Results changes its argument %d from %v to %v", k, keep[k], vals[k])
+				vals[k].Set(keep[k])
+			}
+		}
+		if len(rs) != len(vals) {
+			res.viol("results-count", "Results returns %d values for %d outputs", len(rs), len(vals))
+			return
+		}
+		want := []string{"200", "-1", new(big.Int).Lsh(big.NewInt(1), 69).String(), fmt.Sprint(int64(-1 << 63)), "true",
+			fmt.Sprintf("[%v %v %v]", big72(1), big72(2), big72(3))}
+		for k := range rs {
+			if fmt.Sprint(rs[k]) != want[k] {
+				res.viol("results-value", "Results output %d (%s) = %v (%T), expected %s", k, outs[k].Type, rs[k], rs[k], want[k])
+			}
+			if one := mpc.Result(vals[k], outs[k]); fmt.Sprint(one) != fmt.Sprint(rs[k]) {
+				res.viol("results-differs-from-result", "Results output %d = %v, Result gives %v", k, rs[k], one)
+			}
+		}
+		raw := mpc.Results(vals[:4], nil)
+		for k := range raw {
+			if fmt.Sprint(raw[k]) != keep[k].String() {
+				res.viol("results-raw", "Results without output descriptions: value %d = %v, given %v", k, raw[k], keep[k])
+			}
+		}
+	})
+	// bool, nil, byte slices
+	emit("go-sizes:other", func(res *Result) {
+		sizes, err := circuit.Sizes([]interface{}{true, false, nil, []byte{}, []byte{1}, []byte{1, 2, 3, 4, 5, 6, 7, 8, 9}})
+		want := []int{1, 1, 0, 0, 8, 72}
+		if err != nil || !reflect.DeepEqual(sizes, want) {
+			res.viol("go-sizes:other", "Sizes(true,false,nil,[]byte{},[]byte{1},9 bytes) = %v, %v; expected %v", sizes, err, want)
+		}
+	})
+}
+
 // c13Strings: string results and arrays of strings / booleans (result.go).  A string of k characters is 8k wires,
 // character i in bits 8i..8i+7 (IOEnc.tla StrWires); printable characters come back as themselves, every other
 // byte as a \uXXXX escape, so the byte sequence is recoverable; decoding is repeatable and leaves its argument alone.
@@ -759,6 +935,7 @@ func c13Main(args []string) error {
 		defer out.close()
 		idx := 0
 		c13Strings(out, rng, 1000000)
+		c13GoSizes(out, 2000000)
 		return readND(args[1], func(raw json.RawMessage) error {
 			var c ioCase
 			if err := json.Unmarshal(raw, &c); err != nil {
